@@ -238,6 +238,73 @@ def c09_rounds_violation(ents, split_after=True):
     return None
 
 
+def c03_mr_violation(case, ents):
+    """C03 on the final clusters of a workflow: every cluster of two or more members meets the bound of SOME
+    (criterion, threshold) pair the run ever had in force — thresholds: the initial one and the shifted one;
+    criteria: initial, midsection, final.  Statistics are computed exactly from the members' input rows."""
+    import oracles_hist
+    d = dict(ents)
+    if "clusters.pkl" not in d:
+        return None
+    c = case["cfg"]
+    crits = {c["init"], c["mid"], c["final"] or c["mid"]}
+    if crits == {"never-merge"}:
+        fam = set()
+    else:
+        fam = {"radius" if "radius" in k else "diameter" for k in crits if k != "never-merge"}
+    rows = [r for f in case["files"] for r in f]
+    tmin = min(c["thr"], c["thr"] + c["change"])
+    for cl in d["clusters.pkl"][1]:
+        if len(cl) < 2:
+            continue
+        if not fam:
+            return f"never-merge everywhere but a cluster of {len(cl)} members is reported: {cl[:8]}"
+        ks = [sum(rows[i][j] for i in cl) for j in range(case["nf"])]
+        a = float(oracles_hist.exact_isim(ks, len(cl)))
+        b = float(oracles_hist.exact_rcompl(ks, len(cl)))
+        ok = ("diameter" in fam and a >= tmin - 1e-9) or ("radius" in fam and b >= tmin - 1e-9)
+        if not ok:
+            return (f"a final cluster of {len(cl)} members (e.g. {cl[:6]}) has iSIM {a:.6f} and radius complement "
+                    f"{b:.6f}, below every threshold the run ever had in force (min = {tmin!r}; criteria {sorted(crits)})")
+    return None
+
+
+def suite_mr_bound(seed, tier):
+    """serial multi-round workflows with several input files and a (possibly negative) threshold shift;
+    direct C03 oracle on the final clusters"""
+    rng = random.Random(seed + 15)
+    r = Result("multiround-bound")
+    for _k in range(20 if tier == "quick" else 300):
+        case = gen_mr_case(rng, nfiles=rng.choice([3, 4, 6]))
+        case["cfg"]["change"] = rng.choice([-0.1, -0.1, -0.05, 0.0, 0.1])
+        case["cfg"]["thr"] = rng.choice([0.4, 0.5, 0.65])
+        case["cfg"]["cleanup"] = False
+        if rng.random() < 0.6:
+            case["cfg"]["refine"] = "full"      # the round that re-tunes its tree inside every task
+        # more rows per file than the 'many files' default: clusters of several members in every file
+        protos = None
+        case["files"] = []
+        for _f in range(rng.choice([3, 4, 6])):
+            rows_, protos = hist.gen_fps(rng, rng.randint(8, 20), case["nf"], protos, rng.choice([0.1, 0.2, 0.3]))
+            case["files"].append(rows_)
+        r.cases += 1
+        with tempfile.TemporaryDirectory(prefix="verif_mrb_") as tmp:
+            tmp = Path(tmp)
+            (tmp / "in").mkdir()
+            (tmp / "out").mkdir()
+            try:
+                run_impl(case, tmp / "out", tmp / "in")
+                v = c03_mr_violation(case, read_dir(tmp / "out", case["nf"]))
+            except Exception as e:
+                v = f"the workflow failed: {type(e).__name__}: {e}"[:200]
+        if v:
+            r.bad.append({"suite": "multiround-bound", "what": v, "case": case})
+    r.nontrivial = r.cases
+    r.stats = {"cases": r.cases}
+    r.samples = [{"threshold_changes": [-0.1, -0.05, 0.0, 0.1], "files": "3-6"}]
+    return r
+
+
 # ------------------------------------------------------------------ suite: whole directory
 def suite_mr_files(seed, tier):
     rng = random.Random(seed)
@@ -435,9 +502,62 @@ def suite_sched(seed, tier):
                         r.bad.append({"suite": "sched", "what": f"{procs} processes ({method}, {mt} tasks per "
                                       "process) give different final clusters than the serial execution",
                                       "case": case})
+    # processes with DIFFERENT hash seeds (a forkserver / spawn worker draws its own unless PYTHONHASHSEED is
+    # exported): one workflow whose first round holds two dtype groups per file (two families of 256+ rows) is
+    # run serially in fresh interpreters with several hash seeds; the final files must not depend on it
+    import json
+    import subprocess
+    import sys
+    hrng = random.Random(seed + 77)
+    nf = 64
+
+    def fam(base, n, flips):
+        out = []
+        for _ in range(n):
+            row = list(base)
+            for jj in hrng.sample(range(nf), flips):
+                row[jj] ^= 1
+            out.append(row)
+        return out
+    ba = [1 if hrng.random() < 0.35 else 0 for _ in range(nf)]
+    bb = [1 if hrng.random() < 0.35 else 0 for _ in range(nf)]
+    hfiles = []
+    for _f in range(2):
+        # two tight families of 256+ rows, a looser family around the second one and noise: whether the
+        # second family's summary re-enters before or after the loose rows decides what it absorbs
+        rows = fam(ba, hrng.choice([300, 320]), 2) + fam(bb, hrng.choice([270, 280]), 2) + \
+            fam(bb, 60, hrng.choice([8, 12, 16])) + [[1 if hrng.random() < 0.35 else 0 for _ in range(nf)] for _ in range(30)]
+        hrng.shuffle(rows)
+        hfiles.append(rows)
+    hcase = {"nf": nf, "files": hfiles, "names": "padded",
+             "cfg": {"bf": 50, "thr": 0.65, "change": 0.0, "tol": 0.05, "init": "diameter", "mid": "diameter",
+                     "final": None, "rounds": 1, "bin": 2, "refine": "full", "split_after": False,
+                     "save_centroids": True, "cleanup": False, "packed": True}}
+    code = ("import sys,json,warnings;warnings.filterwarnings('ignore');sys.path.insert(0,%r);import suite_mr;"
+            "from pathlib import Path;c=json.load(open(sys.argv[1]));d=Path(sys.argv[2]);(d/'in').mkdir();(d/'out').mkdir();"
+            "suite_mr.run_impl(c,d/'out',d/'in');print(json.dumps(suite_mr.finals(suite_mr.read_dir(d/'out',c['nf'])),default=str))"
+            % str(Path(__file__).parent))
+    outs = {}
+    with tempfile.TemporaryDirectory(prefix="verif_hseed_") as tmp:
+        tmp = Path(tmp)
+        (tmp / "case.json").write_text(json.dumps(hcase))
+        for hs in (["0", "1", "2"] if tier == "quick" else ["0", "1", "2", "3", "5", "7", "11"]):
+            (tmp / f"h{hs}").mkdir()
+            p = subprocess.run([sys.executable, "-c", code, str(tmp / "case.json"), str(tmp / f"h{hs}")],
+                               capture_output=True, text=True, env=dict(os.environ, PYTHONHASHSEED=hs))
+            evals += 1
+            outs[hs] = p.stdout.strip().splitlines()[-1] if p.returncode == 0 and p.stdout.strip() else f"failed: {p.stderr[-200:]}"
+    if any(v.startswith("failed") for v in outs.values()):
+        r.bad.append({"suite": "sched", "what": "the workflow could not be run in a fresh interpreter: "
+                      + next(v for v in outs.values() if v.startswith("failed"))[:200], "hash_seed_case": seed + 77})
+    elif len(set(outs.values())) > 1:
+        r.bad.append({"suite": "sched", "what": "the final clusters / centroids depend on the hash seed of the process "
+                      f"that runs the tasks (PYTHONHASHSEED {sorted(outs)}: {len(set(outs.values()))} different results)",
+                      "case": {**hcase, "files": [[list(x) for x in f[:3]] + ["... %d rows" % len(f)] for f in hcase["files"]]},
+                      "hash_seed_case": seed + 77})
     r.cases = evals
     r.nontrivial = evals
-    r.stats = {"configurations": n_cfg, "orders_per_configuration": n_orders}
+    r.stats = {"configurations": n_cfg, "orders_per_configuration": n_orders, "hash_seeds": sorted(outs)}
     r.samples = [{"orders": ["reversed", "rotated", "random"],
                   "real_pools": "processes/start method/max tasks per process: 2/forkserver/1, 5/fork/3 (quick)"}]
     return r
